@@ -402,7 +402,26 @@ def check_evaluate(ctx):
     need = ['sim.py_apply_repeated_rules(%s,%s,True)' % (st, tm), 'sim.py_calculate_deterministic_derivative(%s,derivative_array,%s)' % (st, tm),
             'returnderivative_array', 'self.M.set_params(%s)' % pa, 'sim=self.sim_interface']
     miss = [n for n in need if n not in txt]
-    order_ok = not miss and txt.index(need[0]) < txt.index(need[1])
+    # on every path: the parameter set that was handed in is in the model before the rules run (rules read parameters), and the rules
+    # run before the derivative is taken
+    order_ok = not miss
+    ps_ = paths.Enumerator().run(f.body, paths.State())
+    ctx.paths += len(ps_)
+    for p_ in ps_:
+        if p_.exit == 'raise':
+            continue
+        i_set = paths.index_of(p_, lambda e: e.kind == 'stmt' and paths.stmt_calls(e.node, 'set_params'))
+        i_rul = paths.index_of(p_, lambda e: e.kind == 'stmt' and paths.stmt_calls(e.node, 'py_apply_repeated_rules'))
+        i_der = paths.index_of(p_, lambda e: e.kind == 'stmt' and paths.stmt_calls(e.node, 'py_calculate_deterministic_derivative'))
+        given = [e.info for e in p_.events if e.kind == 'test' and util.canon_test(e.node).replace(' ', '') in ('%sisnotNone' % pa, '%s!=None' % pa, 'None!=%s' % pa)]
+        absent = [e.info for e in p_.events if e.kind == 'test' and util.canon_test(e.node).replace(' ', '') in ('%sisNone' % pa, '%s==None' % pa, 'None==%s' % pa)]
+        has_params = (given and given[0]) or (absent and not absent[0]) or (not given and not absent)
+        if not (0 <= i_rul < i_der):
+            order_ok = False
+            miss.append('a path takes the derivative without applying the rules first')
+        elif has_params and not (0 <= i_set < i_rul):
+            order_ok = False
+            miss.append('the parameter set handed in is not in the model when the rules are applied [%s]' % paths.describe(p_, 3))
     ctx.ob('R18.3-evaluation-point', '_evaluate_model', not miss and order_ok, ctx.loc('analysis', f),
            'the rules are applied to, and the derivative is taken at, the same state array and time on the interface of this model', str(miss) if miss else '')
     m = ctx.prog.mod('analysis')
